@@ -111,8 +111,33 @@ def reflHigh (ub : Option α) (s : α × α) : α × α :=
   | some u => if u < s.1 then (s.1 + 2.0 * (u - s.1), -s.2) else s
   | none => s
 
-/-- the corrector on one coordinate: lower bound first, then upper bound. -/
+/-- the first part of the corrector on one coordinate: one mirror reflection at the lower bound, then one at the upper bound. -/
 def reflect1 (lb ub : Option α) (x p : α) : α × α := reflHigh ub (reflLow lb (x, p))
 end reflect
+
+section fold
+variable {α : Type} [Add α] [Sub α] [Mul α] [Div α] [Neg α] [OfScientific α] [LT α] [DecidableLT α]
+
+/-- A drift longer than the box is wide is not back inside after one reflection per wall. For a box
+    `[l, u]` of positive finite width `w = u − l` the remaining reflections are done in one step:
+    with `t = x − l` the particle has crossed `k = ⌊t / w⌋` walls; it is folded back to `l + r` (`k`
+    even) or `u − r` (`k` odd), `r = t − k w`, and the momentum is negated once per wall.
+    `floorA`, `isOdd` and `finite` are `numpy.floor`, `k % 2 != 0` and `numpy.isfinite`. -/
+def refold (floorA : α → α) (isOdd finite : α → Bool) (l u : α) (s : α × α) : α × α :=
+  if (s.1 < l ∨ u < s.1) ∧ finite s.1 = true ∧ finite (u - l) = true ∧ (0.0 : α) < u - l then
+    let w := u - l
+    let t := s.1 - l
+    let k := floorA (t / w)
+    let r := t - k * w
+    if isOdd k then (u - r, -s.2) else (l + r, s.2)
+  else s
+
+/-- the corrector on one coordinate (`_AbstractDistribution.corrector`): `reflect1`, then `refold`
+    where both bounds exist. -/
+def corrector1 (floorA : α → α) (isOdd finite : α → Bool) (lb ub : Option α) (x p : α) : α × α :=
+  match lb, ub with
+  | some l, some u => refold floorA isOdd finite l u (reflect1 lb ub x p)
+  | _, _ => reflect1 lb ub x p
+end fold
 
 end HmcVerif
